@@ -14,6 +14,7 @@ import BV.Drive.Dict
 import BV.Drive.Stream
 import BV.Drive.MetaBlock
 import BV.Drive.Fragment
+import BV.Drive.Zopfli
 
 /-- line protocol: `<engine> <args…>` in, one canonical line out -/
 def dispatch (line : String) : String :=
@@ -36,6 +37,7 @@ def dispatch (line : String) : String :=
   | "ffi" :: rest => BV.Drive.FFI.handle rest
   | "metablock" :: rest => BV.Drive.MetaBlock.handle rest
   | "fragment" :: rest => BV.Drive.Fragment.handle rest
+  | "zopfli" :: rest => BV.Drive.Zopfli.handle rest
   | _ => "bad-engine"
 
 partial def loop (h : IO.FS.Stream) (out : IO.FS.Stream) : IO Unit := do
